@@ -753,6 +753,33 @@ func main() {
 	emit("unsafeUses", unsafes)
 	emit("chanOps", chans)
 	emit("mapArgsExternal", mapArgs)
+	// deduplicated (top-level directory, callee) pairs of mapArgsExternal: what the obligation is stated over
+	{
+		seen := map[string]bool{}
+		var ks []string
+		for _, m := range mapArgs {
+			top := m.file
+			if i := strings.Index(top, "/"); i >= 0 {
+				top = top[:i]
+			}
+			k := top + "\x00" + m.what
+			if !seen[k] {
+				seen[k] = true
+				ks = append(ks, k)
+			}
+		}
+		sort.Strings(ks)
+		b.WriteString("def mapArgsExternalSummary : List (String × String) := [\n")
+		for i, k := range ks {
+			sep := ","
+			if i == len(ks)-1 {
+				sep = ""
+			}
+			parts := strings.SplitN(k, "\x00", 2)
+			fmt.Fprintf(&b, "  (%s, %s)%s\n", leanStr(parts[0]), leanStr(parts[1]), sep)
+		}
+		b.WriteString("]\n\n")
+	}
 	b.WriteString("/-- line-number-free keys used by the obligations in Props/C16.lean -/\n")
 	b.WriteString("def MapRange.key (s : MapRange) : String × String × String := (s.file, s.fn, s.shape)\n")
 	b.WriteString("def Use.key (u : Use) : String × String × String := (u.file, u.fn, u.what)\n\n")
